@@ -24,7 +24,7 @@ import tempfile
 
 V = os.path.dirname(os.path.dirname(os.path.abspath(__file__)))
 REPO = os.environ.get("BNPSA_REPO", "/repo")
-TRANSFORMS = ["identity", "rename", "tempret", "ifflip", "nodoc", "compvars", "elseify", "elimtemps", "guardswap"]
+TRANSFORMS = ["identity", "rename", "tempret", "ifflip", "nodoc", "compvars", "elseify", "elimtemps", "guardswap", "addassert", "kwreorder"]
 SCOPES = (ast.FunctionDef, ast.AsyncFunctionDef, ast.Lambda, ast.ListComp, ast.SetComp, ast.DictComp, ast.GeneratorExp, ast.ClassDef)
 
 
@@ -346,6 +346,27 @@ class ElimTemps(ast.NodeTransformer):
     visit_AsyncFunctionDef = visit_FunctionDef
 
 
+class AddAssert(ast.NodeTransformer):
+    """an always-true assertion at the start of every function and after every assignment to a local in the main line"""
+
+    def visit_FunctionDef(self, node):
+        self.generic_visit(node)
+        i = 1 if node.body and isinstance(node.body[0], ast.Expr) and isinstance(node.body[0].value, ast.Constant) and isinstance(node.body[0].value.value, str) else 0
+        node.body.insert(i, ast.Assert(test=ast.Constant(value=True), msg=None))
+        return node
+    visit_AsyncFunctionDef = visit_FunctionDef
+
+
+class KwReorder(ast.NodeTransformer):
+    """keyword arguments of calls in reverse order (evaluation order of the argument expressions changes; they are side-effect free here)"""
+
+    def visit_Call(self, node):
+        self.generic_visit(node)
+        if len(node.keywords) > 1 and all(k.arg for k in node.keywords) and all(isinstance(k.value, (ast.Name, ast.Constant, ast.Attribute)) for k in node.keywords):
+            node.keywords = list(reversed(node.keywords))
+        return node
+
+
 class NoDoc(ast.NodeTransformer):
     def visit_FunctionDef(self, node):
         self.generic_visit(node)
@@ -370,6 +391,10 @@ def transform_source(src: str, name: str) -> str:
         tree = Elseify().visit(tree)
     elif name == "elimtemps":
         tree = ElimTemps().visit(tree)
+    elif name == "addassert":
+        tree = AddAssert().visit(tree)
+    elif name == "kwreorder":
+        tree = KwReorder().visit(tree)
     elif name == "guardswap":
         sys.path.insert(0, V)
         from bnpsa import normalize
